@@ -4,18 +4,22 @@
      returned with which error class, whether Close returned, what hung / crashed), executed by
      the model: explicit labels (`Do l`, must be enabled) and "let the background goroutines run"
      (`Run`/`RunQ`: the model's own scheduler, with the memtable-fills-up choices supplied);
+     for the l0-full runs the labels around the level-0 stall loop come in the ORDER of the real
+     hook events: `Not D_flushmt` / `Not F_add` where the flush was seen waiting on a full level 0,
+     `Any [K0_..; KO_..]` for a level-0 compaction some worker installed, then the flush's label;
      the model agrees iff the program executes and the final `observe` equals what the
      implementation showed (and, when nothing hung, no call is pending at the end);
    * Snap: the maxima of the real counters sampled during a run, checked against the numeric
      bounds of the proved invariant (i_wch, i_fch, i_l0) under the run's configuration. *)
 From Coq Require Import List NArith Arith Bool.
 Import ListNotations.
-From Verif Require Import Bytes Corr Blocking.
+From Verif Require Import Bytes Corr Blocking BlockingStall.
 Open Scope N_scope.
 
 Inductive instr :=
   | Do (l : lab)
   | Not (l : lab)                          (* l must be DISABLED here (a goroutine observed waiting) *)
+  | Any (ls : list lab)                    (* the first enabled label of ls (some compactor did it; which worker is not observable) *)
   | Run (k : N) (fills : list bool)        (* at most k scheduler steps *)
   | RunQ (fills : list bool).              (* scheduler steps until nothing is enabled (<= mu) *)
 
@@ -61,7 +65,10 @@ Definition tags_of (c : cfg) (s s' : st) (l : lab) : N :=
   (N.lor (tbit (match l with G_check | G_none => true | _ => false end) 14)             (* value-log GC ran *)
   (N.lor (tbit (match l with E_close => negb (Nat.eqb (reqs s + lockq s) 0) | _ => false end) 15) (* Close begins with writes in flight *)
   (N.lor (tbit (match l with R_pass => true | _ => false end) 16)
-         (tbit (match l with H_conflict => true | _ => false end) 17)))))))))))))).
+  (N.lor (tbit (match l with H_conflict => true | _ => false end) 17)
+  (N.lor (tbit (drop_stalled c s') 18)                                                  (* DropPrefix's own flush sits in the L0 stall loop *)
+  (N.lor (tbit (match l with D_flushmt => mt_nonempty (mt s) | _ => false end) 19)     (* DropPrefix flushed db.mt into level 0 *)
+         (tbit (match l with D_skipmt | C_mt => Nat.leb (cS c) (l0 s) | _ => false end) 20))))))))))))))))). (* DropAll / Close reached its memtable step with L0 at the stall limit *)
 
 Fixpoint run_f (strict : bool) (c : cfg) (fuel : nat) (fills cur : list bool) (s : st) (tg : N) : st * N * list bool :=
   match fuel with
@@ -92,6 +99,15 @@ Fixpoint interp (strict : bool) (c : cfg) (p : list instr) (s : st) (tg : N) : o
       match step strict c s l with
       | Some _ => None
       | None => interp strict c r s tg
+      end
+  | Any ls :: r =>
+      match find (enabled strict c s) ls with
+      | Some l =>
+          match step strict c s l with
+          | Some s' => interp strict c r s' (N.lor tg (tags_of c s s' l))
+          | None => None
+          end
+      | None => None
       end
   | Run k fills :: r =>
       let '(s', tg', _) := run_f strict c (N.to_nat k) fills [] s tg in interp strict c r s' tg'
